@@ -20,6 +20,7 @@ from .lib import *
 from . import c01
 
 EXPLANATION = "Must-pass-through of the clearing assignments per module kind in ModuleGraph::prune_types (T2), field classification of the type-bearing ADT fields (T1), and the retain predicates / worklist type (T5, type rule)."
+EXPLANATION += " " + 'Plus: graph-level field table (has_node_specifier re-derived), only code imports decide static-vs-dynamic and type resolutions are only written when types are included (shared with C01), the worklist loop never stops early.'
 NOT_DECIDED = "observational equality with a second, code-only build"
 CONFIGS = ["default", "nofastcheck"]  # thorough tier also analyses the build without fast_check / symbols
 ASSUMPTIONS = []
